@@ -39,12 +39,12 @@ WORKERS = int(os.environ.get("VERIF_TLC_WORKERS", "6"))  # concurrent single-wor
 
 BASE = dict(
     MODE="sel", EMIT=False, KIND="rr", NT=2, GAMMA=S("QHalf"), WIN=250, BASELINE="none", OP="none", HG=S("QHalf"),
-    TIE="any", REWARDS=S("RewA"), MAXROUNDS=6, MAXREJ=4, T=5, B2=2, EPI=1, MAXLEN=2, LMODE="exact", KK=2, KAPPA=S("QHalf"),
+    TIE="any", REWARDS=S("RewA"), MAXROUNDS=6, MAXREJ=4, T=5, B2=2, EPI=1, MAXLEN=2, LMODE="exact", EXPL=0, KK=2, KAPPA=S("QHalf"),
     NAV=2, RETS=S("RetsSmt"), SOLVEDT=S("PlusOne"), UNSOLVT=S("MinusOne"),
 )
 SEL_INV = ["SelValid", "Alternates", "RRFair", "Aligned", "InitialRoundsCoverAll", "ChoiceMaximises", "FirstRefines"]
 ACC_INV = ["SelValid", "Alternates", "LoopCanSelect", "RRFair", "Aligned", "BudgetRespected", "UtsExact", "PerTaskExact",
-           "CounterExact", "Partition", "Stage2Pool", "PoolSizes"]
+           "CounterExact", "Partition", "Stage2Pool", "PoolSizes", "NoUpdateBeforeWarmup"]
 GAMMAS = {"QHalf": Fraction(1, 2), "QOne": Fraction(1)}
 CLASS_OF = {"base": "TaskSelector", "rr": "RoundRobinSelector", "gen": "DUCBGeneralized", "ducb": "DUCB"}
 
@@ -386,6 +386,7 @@ class StubLearner:
             "k": "call", "task": int(base.task), "g": g, "T": T, "E": int(E) if E is not None else 0,
             "lens": [int(x) for x in lens], "rets": [qj(r) for r in rets], "done": ep, "executed": int(sum(delta)),
             "elsewhere": int(sum(delta) - delta[base.task]), "reported": int(step), "obs": obs,
+            "ls": int(learning_starts) if learning_starts is not None else -1,
             "rb": int(self.rb.task) if self.rb is not None else int(base.task),
             "mix": int(self.mix.task_id) if self.mix is not None else int(base.task),
         })
@@ -489,23 +490,23 @@ def _run_scheduler_body(sc, trace, ts, learner, rb, mix, events):
             if kind == "uts":
                 from rl_blox.algorithm.uniform_task_sampling import train_uts
 
-                trace["cfg"] = {"nt": nt, "T": sc["T"], "E": sc["E"]}
+                trace["cfg"] = {"nt": nt, "T": sc["T"], "E": sc["E"], "expl": sc.get("expl", 0)}
                 res = train_uts(ts, learner, total_timesteps=sc["T"], episodes_per_task=sc["E"], seed=sc["seed"],
-                                exploring_starts=0, progress_bar=False, logger=None)
+                                exploring_starts=sc.get("expl", 0), progress_bar=False, logger=None)
                 events.append({"k": "end", "obs": {"stage": "end", "gs": int(res.global_step)}})
             elif kind == "amt":
                 from rl_blox.algorithm import active_mt
 
                 k, bl, op = HEURISTICS[sc["selector"]]
                 g = Fraction(sc["gamma"][0], sc["gamma"][1])
-                trace["cfg"] = {"nt": nt, "T": sc["T"], "E": sc["E"],
+                trace["cfg"] = {"nt": nt, "T": sc["T"], "E": sc["E"], "ls": sc.get("ls", 0),
                                 "sel": {"kind": k, "nt": nt, "gamma": qj(g), "W": 250, "baseline": bl, "op": op, "hg": [1, 2], "tie": "first"}}
                 saved = dict(active_mt.TASK_SELECTORS)
                 try:
                     for name, (cls, kw) in saved.items():
                         active_mt.TASK_SELECTORS[name] = (recording(cls, events), kw)
                     res = active_mt.train_active_mt(ts, learner, rb, r_max=1.0, ducb_gamma=float(g), xi=0.0, task_selector=sc["selector"],
-                                                    total_timesteps=sc["T"], scheduling_interval=sc["E"], learning_starts=0,
+                                                    total_timesteps=sc["T"], scheduling_interval=sc["E"], learning_starts=sc.get("ls", 0),
                                                     seed=sc["seed"], task_selectables=[mix], logger=None, progress_bar=False)
                 finally:
                     active_mt.TASK_SELECTORS.clear()
@@ -515,9 +516,9 @@ def _run_scheduler_body(sc, trace, ts, learner, rb, mix, events):
                 from rl_blox.algorithm.smt import train_smt
 
                 trace["cfg"] = {"nt": nt, "b1": sc["b1"], "b2": sc["b2"], "K": sc["K"], "kappa": sc["kappa"], "E": sc["E"],
-                                "nav": sc["nav"], "solvedT": [1, 1], "unsolvT": [-1, 1]}
+                                "nav": sc["nav"], "solvedT": [1, 1], "unsolvT": [-1, 1], "ls": sc.get("ls", 0)}
                 res = train_smt(ts, learner, rb, b1=sc["b1"], b2=sc["b2"], solved_threshold=1.0, unsolvable_threshold=-1.0,
-                                scheduling_interval=sc["E"], kappa=fq(sc["kappa"]), K=sc["K"], n_average=sc["nav"], learning_starts=0,
+                                scheduling_interval=sc["E"], kappa=fq(sc["kappa"]), K=sc["K"], n_average=sc["nav"], learning_starts=sc.get("ls", 0),
                                 seed=sc["seed"], task_selectables=[mix], logger=None, progress_bar=False)
                 events.append({"k": "end", "obs": {"stage": "end", "ts": [int(x) for x in res[1]], "avg": [_perf(v) for v in res[2]]}})
         except _Abort as e:
@@ -556,6 +557,15 @@ def scenarios(seed, quick):
                 if rpt == 0:
                     out.append(dict(sc, id=f"uts{n}s", mode="short"))
                 n += 1
+    # train_uts with a warm-up (exploring_starts) that spans several scheduling rounds: 1-3 step episodes
+    for expl in (3, 5, 8):
+        for E in (1, 2):
+            for T in (expl + 2, 2 * expl + 1):
+                for rpt in range(1 if quick else 3):
+                    nt = 2 + (n % 2)
+                    out.append(dict(kind="uts", id=f"uts{n}w", nt=nt, T=T, E=E, expl=expl, seed=int(rng.integers(0, 1000)),
+                                    lens=pick([[1], [2], [1, 2]] if expl == 3 else LEN_SCRIPTS[:6], nt), rets=pick(RET_AMT, nt), mode="exact"))
+                    n += 1
     # train_active_mt: every named heuristic x discount x budgets
     for name in HEURISTICS:
         for gam in ([1, 2], [1, 1]):
@@ -566,7 +576,7 @@ def scenarios(seed, quick):
                     continue  # gamma = 1/2: at most 12 calls, so that 2^-t stays inside TLC's 32-bit rationals
                 out.append(dict(kind="amt", id=f"amt{n}", nt=nt, T=T, E=E, seed=int(rng.integers(0, 1000)), selector=name, gamma=gam,
                                 lens=pick(LEN_HALF if half else LEN_SCRIPTS[:6], nt), rets=pick(RET_HALF if half else RET_AMT, nt),
-                                mode="short" if n % 5 == 0 else "exact"))
+                                mode="short" if n % 5 == 0 else "exact", ls=(0, 3, 7)[n % 3]))
                 n += 1
     # train_smt
     for rpt in range(70 if quick else 400):
@@ -574,7 +584,7 @@ def scenarios(seed, quick):
         sc = dict(kind="smt", id=f"smt{n}", nt=nt, K=int(rng.integers(1, nt + 1)), b1=int(rng.choice([2, 3, 5, 8, 12, 17])),
                   b2=int(rng.choice([1, 2, 4, 7])), kappa=[[1, 4], [1, 2], [3, 4], [1, 8]][int(rng.integers(0, 4))], E=int(rng.integers(1, 3)),
                   nav=int(rng.integers(1, 4)), seed=int(rng.integers(0, 1000)), lens=pick(LEN_SCRIPTS, nt), rets=pick(RET_SMT, nt),
-                  mode="short" if rpt % 6 == 0 else "exact")
+                  mode="short" if rpt % 6 == 0 else "exact", ls=(0, 2, 9)[rpt % 3])
         out.append(sc)
         n += 1
     return out
@@ -731,6 +741,11 @@ def run_traces(rep, quick):
     rep.extra["sched_traces"] = {k: sum(1 for t in traces if t["kind"] == k) for k in ("uts", "amt", "smt")}
     rep.extra["sched_trace_calls"] = calls
     rep.extra["uts_learner_reports_one_short"] = sens
+    spanning = sum(1 for t in traces if t["kind"] == "uts" and t["cfg"].get("expl", 0) > 0
+                   for e in t["events"] if e["k"] == "call" and 0 < e["g"] < t["cfg"]["expl"])
+    rep.extra["uts_calls_starting_inside_warmup"] = spanning
+    if spanning < 6:
+        raise tlc.MachineryError(f"only {spanning} train_uts calls started inside the warm-up (vacuous warm-up hand-over)")
     moves = pool_moves(traces, by)
     rep.extra["smt_pool_moves_exercised"] = moves
     missing = [m for m in ("upd->solved", "upd->unsolv", "upd->main", "main->upd", "stage2:unsolvable", "stage2:main") if not moves.get(m)]
@@ -938,6 +953,8 @@ def model_jobs(quick):
         ("canary Feedback_KeepsFirst", _cfg(KIND="gen", NT=2, MAXROUNDS=3), ["Aligned"], [], "NextGenBad", "Aligned"),
         ("sel gen2 any-tie", _cfg(KIND="gen", NT=2, BASELINE="max", OP="max-with-0", REWARDS=S("RewTwo"), GAMMA=S("QOne"), MAXROUNDS=8 if quick else 10), SEL_INV, [], "Next", None),
         ("uts", _cfg(MODE="uts", NT=2, T=6, EPI=2, MAXLEN=3, MAXROUNDS=8), ACC_INV, [], "Next", None),
+        ("uts warm-up 3", _cfg(MODE="uts", NT=2, T=7, EPI=1, MAXLEN=3, MAXROUNDS=8, EXPL=3), ACC_INV, [], "Next", None),
+        ("canary UtsCall_RelativeWarmup", _cfg(MODE="uts", NT=2, T=7, EPI=1, MAXLEN=3, MAXROUNDS=8, EXPL=3), ["NoUpdateBeforeWarmup"], [], "NextUtsBad", "NoUpdateBeforeWarmup"),
         ("canary uts learner one short: counter", _cfg(MODE="uts", NT=2, T=6, EPI=1, MAXLEN=3, MAXROUNDS=8, LMODE="short"), ["UtsExact"], [], "Next", "UtsExact"),
         ("canary uts learner one short: budget", _cfg(MODE="uts", NT=2, T=6, EPI=1, MAXLEN=3, MAXROUNDS=8, LMODE="short"), ["BudgetRespected"], [], "Next", "BudgetRespected"),
         ("amt rr", _cfg(MODE="amt", KIND="rr", NT=3, T=7, EPI=2, MAXLEN=2), ACC_INV, [], "Next", None),
@@ -1057,6 +1074,7 @@ def run_sched(rep):
         "scheduler: D-UCB with zeta>0 is only checked by order: the chosen arm maximises an independent float64 evaluation of the documented index up to 4 ulp (sqrt/log are not evaluable in TLA+)",
         "scheduler: selectors <= 3 arms and <= 11 rounds exhaustively (250-step window by one 262-round behaviour with constant rewards); schedulers <= 4 tasks, dyadic kappa, thresholds +-1, scripted learner (real learners are judged by the loop part)",
         "scheduler: SMT pools and counters are read from the local variables of smt_stage1/smt_stage2/train_active_mt at every train_st call (names are part of the binding)",
+        "scheduler: warm-up hand-over: the learning_starts argument of every recorded train_st call is compared exactly (train_uts: exploring_starts; train_smt / train_active_mt: their learning_starts unchanged, as the code documents a plain threshold); that the learner compares it with its absolute step counter is the modelled contract of the scripted learner (the real learners' warm-up is judged by the loop part)",
         "scheduler: train_uts has no bookkeeping of its own; its totals are exact only if the learner reports start+executed (runs with a learner reporting one short are recorded under uts_learner_reports_one_short, not judged)",
     ]
 
